@@ -308,6 +308,24 @@ def step : List String → String
         | .error e => fmtErr e
       | _, _, _, _ => "bad-op"
     | _, _ => "bad-op"
+  -- forward(distribution) followed by forward(data) on the RENAMED model under the new keyword:
+  --   distfwd M D R eqr domainDim distDim name input isPar
+  | ["distfwd", m, d, r, eqr, ddim, dim, name, x, isPar] =>
+    match (do let D ← parseGeom d; let R ← parseGeom r; withEqr eqr D R) with
+    | some (D, R) =>
+      match parseModel m R D, ddim.toNat?, dim.toNat?, parseInput x, parseBool isPar with
+      | some M, some ddim, some dim, some x, some isPar =>
+        let M := { M with domainGeom := { M.domainGeom with parDim := ddim } }
+        match forward M 1 [] (.dist dim name) true with
+        | .ok (.model M') =>
+          match forward M' 0 [name] (.data x) isPar with
+          | .ok (.data y) => fmtOutput y
+          | .ok (.model _) => "bad-op"
+          | .error e => fmtErr e
+        | .ok (.data _) => "bad-op"
+        | .error e => fmtErr e
+      | _, _, _, _, _ => "bad-op"
+    | none => "bad-op"
   -- gradient: grad M D R dir wrt isDirPar isWrtPar
   | ["grad", m, d, r, eqr, dir, wrt, idp, iwp] =>
     match (do let D ← parseGeom d; let R ← parseGeom r; withEqr eqr D R) with
